@@ -1077,3 +1077,33 @@ async fn d29_split_segment_recovery_loses_the_second_half() {
 			lost.len(), n, lost.first(), late.is_some());
 	}
 }
+
+// D28: with a timestamp window the history cursor skips versions ABOVE the window before it records hard-delete /
+// replace barriers: versions that a later hard delete erased are listed by a windowed history scan, and are no longer
+// listed once compaction has physically dropped them (the answer depends on compaction).
+#[tokio::test(flavor = "multi_thread")]
+async fn d28_windowed_history_ignores_barrier_above_the_window() {
+	use crate::transaction::{HistoryOptions, WriteOptions};
+	let d = td();
+	let opts = mk_opts(d.path().to_path_buf(), |o| { o.enable_versioning = true; o.enable_vlog = true; o.vlog_value_threshold = 0; });
+	let tree = Tree::new(Arc::clone(&opts)).unwrap();
+	{
+		let mut tx = tree.begin().unwrap();
+		tx.set_at(b"k", b"v10", 10).unwrap();
+		tx.commit().await.unwrap();
+	}
+	{
+		let mut tx = tree.begin().unwrap();
+		tx.delete_with_options(b"k", &WriteOptions::default().with_timestamp(Some(30))).unwrap(); // hard delete @30
+		tx.commit().await.unwrap();
+	}
+	let tx = tree.begin().unwrap();
+	// unfiltered history and the point-in-time read agree: k is erased
+	let mut all = tx.history(b"k", b"l").unwrap();
+	assert!(!all.seek_first().unwrap(), "precondition: the unfiltered history lists nothing for the erased key");
+	assert_eq!(tx.get_at(b"k", 20).unwrap(), None, "precondition: get_at sees the erased key as absent");
+	let ho = HistoryOptions { include_tombstones: false, ts_range: Some((5, 20)), limit: None };
+	let mut win = tx.history_with_options(b"k", b"l", &ho).unwrap();
+	let listed = win.seek_first().unwrap();
+	assert!(!listed, "D28: history(ts 5..20) lists a version that the hard delete at ts 30 erased");
+}
